@@ -59,7 +59,7 @@ SPEC = {
             'context cancellation at a random parked point, at a select entry, or before the first select. Observable: result '
             'kind, returned (lane, root) list, signature order, every Send (kind, addressee, request id, chains), the '
             'attributed observations of the signature request (executable property: no node twice, F_home+1 distinct carriers per lane), and whether every VerifyReportSignatures call saw exactly the '
-            'report handed back. Give-up clause of the executable property: ErrInsufficientObservationResponses passes only if the observers that were never sent an observation request for their lane (Send log, failed sends count as asked) could not complete F_home+1 on some lane together with the voters of the best root in the script. Sink C06_sweep: every single anomaly and every PAIR of anomalies (45 for observation responses: the seven on-ramp shapes above, extra '
+            'report handed back. Give-up clause of the executable property: ErrInsufficientObservationResponses passes only if the observers that were never sent an observation request for their lane (Send log, failed sends count as asked) could not complete F_home+1 on some lane together with the voters of the best root in the script; ErrInsufficientSignatureResponses passes only if fewer than F_remote+1 configured signers known to RMNHome have no report-signature request in the Send log. Sink C06_sweep: every single anomaly and every PAIR of anomalies (45 for observation responses: the seven on-ramp shapes above, extra '
             'lane of an unrequested / unobserved chain, duplicate / missing / no lanes, root nil / 5 / 31 / 33 bytes on the first or '
             'last lane, nil sub-message at each nullable position, interval off by one, other onramp, conflicting / empty root, '
             'wrong dest / offramp / digest, signature of another key / over other bytes / empty, wrong or missing payload, garbage, '
@@ -98,15 +98,15 @@ SPEC = {
         'liveness only: Send calls succeed, request ids do not repeat (crypto/rand 64 bit), at most F_home dishonest '
         'observers per lane, honest nodes answer requests sent to them correctly',
     ],
-    'level_text': 'PARTIAL. Proof: 44 closed Coq theorems. 27 property theorems over the executable two-phase machine, for every configuration, schedule parameter and '
+    'level_text': 'PARTIAL. Proof: 50 closed Coq theorems. 29 property theorems over the executable two-phase machine, for every configuration, schedule parameter and '
                   'event list: phase A hands on only with F_home+1 DISTINCT configured observers per lane whose signed responses carry the same root for exactly the '
                   'requested lane and interval (C06_obs_threshold, C06_lane_source_exact); success only with F_remote+1 DISTINCT configured signers valid for exactly the '
                   'returned report, strictly ascending by address (C06_sig_threshold, C06_sigs_strictly_ordered); the call ends on CtxDone and never panics; enough '
                   'honest timely answers give success whatever else arrives (C06_liveness); no node is asked or counted twice; requests are well formed and every error '
-                  'kind has its origin; ErrInsufficientObservationResponses only after every observer of every lane was asked (C06_giveup_only_after_asking_all). Histories of calls on one long-lived controller: the multi-call machine equals the single-call machine per call, both thresholds '
+                  'kind has its origin; ErrInsufficientObservationResponses only after every observer of every lane was asked (C06_giveup_only_after_asking_all), ErrInsufficientSignatureResponses only after every signer RMNHome knows was asked (C06_giveupB_only_after_asking_all). Histories of calls on one long-lived controller: the multi-call machine equals the single-call machine per call, both thresholds '
                   "hold in every call against that call's configuration, late answers to earlier calls change nothing (C06_history_memoryless, _sig_threshold, "
                   '_obs_threshold, _leftover_ignored). Unrepaired code refuted (F12, repaired in /repo): one node counted twice, nil sub-message panic, comparator panic. '
-                  'Judge soundness (17 C06_judge_*): the executable property - result, Send log, error kind, give-up clause, liveness twin - accepts every outcome the model allows and '
+                  'Judge soundness (21 C06_judge_*): the executable property - result, Send log, error kind, give-up clauses of both phases, liveness twin - accepts every outcome the model allows and '
                   'implies the Prop-level clauses. Correspondence, every run: the real ComputeReportSignatures through a scripted PeerClient, each item delivered only '
                   'when the controller is parked in its select (GOMAXPROCS=1), race items compared with the SET of outcomes the model allows; ONE controller from '
                   'NewController over 2..4 calls with the RMNHome / RMNRemote configuration changing (C06_hist*); observer sets tied to the RMNHome bitmaps by the '
